@@ -22,28 +22,28 @@ type FuncInfo struct {
 }
 
 type Engine struct {
-	effApprox  map[*types.Func]map[string]bool // effects of functions on a recursive cycle: current approximation
-	effMembers map[*types.Func]map[string]bool // functions of the recursive group being computed
-	effRound   map[*types.Func]map[string]bool // results of the current fixpoint round (not final)
-	coverReturns bool // emit a reachability (cover) query for every return site
-	effCycle   bool                            // an approximation was used since this flag was last cleared
-	repo       string
-	fset       *token.FileSet
-	pkgs       map[string]*packages.Package // by path
-	roots      []*packages.Package
-	funcs      map[*types.Func]*FuncInfo
-	byName     map[string]*FuncInfo // "pkgpath.Func" or "pkgpath.Recv.Method"
-	contracts  map[string]*Contract // by full name
-	pures      map[string]*PureFn   // by pkgpath.name
-	lemmas     []*Lemma
-	specObjs   map[types.Object]string // fake spec objects -> kind
-	effects    map[*types.Func]map[string]bool
-	effBusy    map[*types.Func]bool
-	timeout    int
-	verbose    bool
-	loadErrs   []string
-	noInline   map[string]bool
-	sentinels  map[string]bool
+	effApprox    map[*types.Func]map[string]bool // effects of functions on a recursive cycle: current approximation
+	effMembers   map[*types.Func]map[string]bool // functions of the recursive group being computed
+	effRound     map[*types.Func]map[string]bool // results of the current fixpoint round (not final)
+	coverReturns bool                            // emit a reachability (cover) query for every return site
+	effCycle     bool                            // an approximation was used since this flag was last cleared
+	repo         string
+	fset         *token.FileSet
+	pkgs         map[string]*packages.Package // by path
+	roots        []*packages.Package
+	funcs        map[*types.Func]*FuncInfo
+	byName       map[string]*FuncInfo // "pkgpath.Func" or "pkgpath.Recv.Method"
+	contracts    map[string]*Contract // by full name
+	pures        map[string]*PureFn   // by pkgpath.name
+	lemmas       []*Lemma
+	specObjs     map[types.Object]string // fake spec objects -> kind
+	effects      map[*types.Func]map[string]bool
+	effBusy      map[*types.Func]bool
+	timeout      int
+	verbose      bool
+	loadErrs     []string
+	noInline     map[string]bool
+	sentinels    map[string]bool
 }
 
 // overlayFiles: absolute path -> replacement content (used by the thorough tier's mutant self-test; never by a claim)
